@@ -25,9 +25,13 @@ RULES = ['pkg.base', 'pkg.base.Base', 'pkg.base.Base.m', 'pkg.base.Base.other', 
 def projects(draw: Any) -> Dict[str, Any]:
     fmt = draw(st.sampled_from(['epytext', 'epytext', 'restructuredtext', 'google', 'numpy', 'plaintext']))
     x = XREF[fmt]
-    f = {k: draw(st.booleans()) for k in ['reexport', 'dup', 'nonascii', 'nested', 'iface', 'override', 'inherit_doc', 'private', 'const', 'deep', 'xref_hidden', 'second_root', 'alias_base', 'prop', 'samename', 'multi_iface', 'dunder_main', 'caseclash', 'star_reexport']}
-    base: List[str] = ['"""Base module, see %s."""' % x('Base')]
-    base += ['class Base:', '    """Base class. See %s and %s."""' % (x('helper'), x('Base.other'))]
+    f = {k: draw(st.booleans()) for k in ['reexport', 'dup', 'nonascii', 'nested', 'iface', 'override', 'inherit_doc', 'private', 'const', 'deep', 'xref_hidden', 'second_root', 'alias_base', 'prop', 'samename', 'multi_iface', 'dunder_main', 'caseclash', 'star_reexport', 'sections']}
+    # docstrings with section titles: the sidebar shows their table of contents (on the object's own page, and that of the parent when
+    # the sidebar is expanded), the titles link back to its entries
+    sect = '\n\nSection One\n===========\n\ntext one\n\nSection Two\n===========\n\ntext two\n' if f['sections'] and fmt != 'plaintext' else ''
+    csect = sect.replace('\n', '\n    ')
+    base: List[str] = ['"""Base module, see %s.%s"""' % (x('Base'), sect)]
+    base += ['class Base:', '    """Base class. See %s and %s.%s"""' % (x('helper'), x('Base.other'), csect)]
     base += ['    def m(self, a=None):', '        """Method m, see %s and %s and %s."""' % (x('other'), x('helper'), x('Base'))]
     base += ['    def other(self):', '        """Other, see %s."""' % x('m')]
     if f['prop']:
@@ -57,7 +61,7 @@ def projects(draw: Any) -> Dict[str, Any]:
                 'class Third(_Hidden):', '    """inherits from a private class, see %s"""' % x('_Hidden.m'), '    def other(self): pass']
     if f['nonascii']:
         sub += ['class Ünï(Base):', '    """non-ascii class"""', '    def méth(self):', '        """see %s"""' % x('Ünï'), 'def fünc(): pass']
-    init: List[str] = ['"""Package, see %s."""' % x('pkg.base.Base')]
+    init: List[str] = ['"""Package, see %s.%s"""' % (x('pkg.base.Base'), sect)]
     files = {'pkg/__init__.py': '', 'pkg/base.py': '\n'.join(base) + '\n', 'pkg/sub.py': '\n'.join(sub) + '\n'}
     if f['reexport']:
         # the re-exported function has annotations, a default and a docstring that name things which stay behind in _impl
